@@ -199,6 +199,8 @@ class PeriodicSensor(Sensor):
 
     def _periodic_sense(self):
         self.data['time'].append(self._env.now)
+        if len(self.data['time']) > self._data_capacity:
+            self.data['time'].pop(0)  # drop oldest data
         self.sense()
         self._schedule_next_sense()
 
